@@ -118,6 +118,14 @@ Proof.
     exists x2. split; [exact Hx2|]. exists q2. split; [apply dpath_edit; exact Hd2|]. rewrite seg_edit. reflexivity.
 Qed.
 
+Lemma mreach_edit m i : MReach T w' m i <-> MReach T w m i.
+Proof.
+  unfold MReach, reach. change (model_at w' m) with (model_at w m).
+  split; intros (x & Hx & (q & Hd)); exists x; (split; [exact Hx|]); exists q; apply dpath_edit; exact Hd.
+Qed.
+Lemma ref_text_edit_other j : j <> h -> ref_text T w' j = ref_text T w j.
+Proof. intros Hne. unfold ref_text. rewrite edit_other by exact Hne. reflexivity. Qed.
+
 Theorem inv04_edit_node : Inv04 w -> Inv04 w'.
 Proof.
   intros [I1 I2 I3 IL I4 I5]. constructor.
@@ -139,6 +147,24 @@ Proof.
 Qed.
 
 End OneNode.
+
+(* an operation that does nothing or edits one node h within the conditions of the section above *)
+Definition edit_shape (w : world) (h : id) (w' : world) : Prop :=
+  w' = w \/
+  exists n n', w_nodes w h = Some n /\ n_name n' = n_name n /\ n_type n' = n_type n /\
+    elem_ids (n_content n') = elem_ids (n_content n) /\
+    (n_name n = SHORTN ->
+       (forall j nj, w_nodes w j = Some nj -> hd_error (n_content nj) = Some (CElem h) -> named T (n_type nj) = false) /\
+       (forall s, cdata_of T n' = Some (DString s) -> ~ In 47 s)) /\
+    (named T (n_type n) = true ->
+       hd_error (n_content n') = hd_error (n_content n)
+       \/ (identifiable_n T w n = false /\ identifiable_n T (edit_world w h n') n' = false)) /\
+    w' = edit_world w h n'.
+
+Lemma edit_shape_inv04 w h w' : Inv04 w -> edit_shape w h w' -> Inv04 w'.
+Proof.
+  intros HI [->|(n & n' & Hn & H1 & H2 & H3 & H4 & H5 & ->)]; [exact HI|]. apply (inv04_edit_node w h n); auto.
+Qed.
 
 (* ---------- list facts *)
 Lemma elem_ids_insert_cdata l k d : elem_ids (insert_at l k (CData d)) = elem_ids l.
@@ -215,16 +241,26 @@ Proof.
 Qed.
 
 (* ---------- insert_character_content_item *)
-Theorem C04_insert_citem h text pos w r w' :
+Lemma mixed_not_ref n : content_mode T (n_type n) = Val MMixed -> isref T (n_type n) = false.
+Proof.
+  intros Hm. unfold isref. destruct (is_ref T (n_type n)) as [[|]| |] eqn:E; try reflexivity.
+  apply (tk_ref _ _ TK) in E. rewrite Hm in E. unfold MMixed, MCharacters in E. discriminate E.
+Qed.
+
+Lemma insert_citem_shape h text pos w r w' :
   Inv04 w -> Known04 T LATEST w (OpInsertCItem h text pos) = false ->
-  e_insert_character_content_item T h text pos w = Val (r, w') -> Inv04 w'.
+  e_insert_character_content_item T h text pos w = Val (r, w') ->
+  edit_shape w h w' /\ (w' = w \/ forall n, w_nodes w h = Some n -> isref T (n_type n) = false).
 Proof.
   intros HI HK H. unfold e_insert_character_content_item in H.
-  wstep H; try solve [winv E; exact HI]. winv E. wstep H; try solve [winv E; exact HI]. winv E.
-  destruct (v =? MMixed) eqn:Em; [|winv H; exact HI]. apply N.eqb_eq in Em. subst v.
-  destruct (pos <=? N.of_nat (List.length (n_content n))) eqn:El; [|winv H; exact HI]. apply N.leb_le in El.
-  apply set_node_inv in H as (_ & ->).
-  apply (inv04_edit_node w h n); auto.
+  wnode H n Hn. wval H v Hv.
+  destruct (v =? MMixed) eqn:Em; [|winv H; split; left; reflexivity]. apply N.eqb_eq in Em. subst v.
+  split; [|right; intros n0 Hn0; rewrite Hn in Hn0; injection Hn0 as <-; apply mixed_not_ref; exact Hv].
+  destruct (pos <=? N.of_nat (List.length (n_content n))) eqn:El; [|winv H; left; reflexivity]. apply N.leb_le in El.
+  apply set_node_inv in H as (_ & ->). right.
+  exists n, (set_content n (insert_at (n_content n) (N.to_nat pos) (CData (DString text)))).
+  split; [exact Hn|]. split; [reflexivity|]. split; [reflexivity|].
+  split; [|split; [|split; [|reflexivity]]].
   - cbn. apply elem_ids_insert_cdata.
   - intros Hs. exfalso. rewrite (short_node_mode _ _ _ HI Hn Hs) in Hv. discriminate.
   - intros Hnm. cbn [Known04] in HK. destruct (N.eq_dec pos 0) as [->|Hp].
@@ -233,17 +269,26 @@ Proof.
     + left. cbn. apply hd_insert_at; [lia|]. intros E. rewrite E in El. cbn in El. lia.
 Qed.
 
+Theorem C04_insert_citem h text pos w r w' :
+  Inv04 w -> Known04 T LATEST w (OpInsertCItem h text pos) = false ->
+  e_insert_character_content_item T h text pos w = Val (r, w') -> Inv04 w'.
+Proof. intros HI HK H. eapply edit_shape_inv04; [exact HI|]. eapply insert_citem_shape; eauto. Qed.
+
 (* ---------- remove_character_content_item *)
-Theorem C04_remove_citem h pos w r w' :
+Lemma remove_citem_shape h pos w r w' :
   Inv04 w -> Known04 T LATEST w (OpRemoveCItem h pos) = false ->
-  e_remove_character_content_item T h pos w = Val (r, w') -> Inv04 w'.
+  e_remove_character_content_item T h pos w = Val (r, w') ->
+  edit_shape w h w' /\ (w' = w \/ forall n, w_nodes w h = Some n -> isref T (n_type n) = false).
 Proof.
   intros HI HK H. unfold e_remove_character_content_item in H.
-  wstep H; try solve [winv E; exact HI]. winv E. wstep H; try solve [winv E; exact HI]. winv E.
-  destruct (v =? MMixed) eqn:Em; [|winv H; exact HI]. apply N.eqb_eq in Em. subst v.
-  destruct (nth_opt (n_content n) (N.to_nat pos)) as [[c|d]|] eqn:En; try (winv H; exact HI).
-  apply set_node_inv in H as (_ & ->).
-  apply (inv04_edit_node w h n); auto.
+  wnode H n Hn. wval H v Hv.
+  destruct (v =? MMixed) eqn:Em; [|winv H; split; left; reflexivity]. apply N.eqb_eq in Em. subst v.
+  split; [|right; intros n0 Hn0; rewrite Hn in Hn0; injection Hn0 as <-; apply mixed_not_ref; exact Hv].
+  destruct (nth_opt (n_content n) (N.to_nat pos)) as [[c|d]|] eqn:En; try (winv H; left; reflexivity).
+  apply set_node_inv in H as (_ & ->). right.
+  exists n, (set_content n (remove_at (n_content n) (N.to_nat pos))).
+  split; [exact Hn|]. split; [reflexivity|]. split; [reflexivity|].
+  split; [|split; [|split; [|reflexivity]]].
   - cbn. eapply elem_ids_remove_cdata; eauto.
   - intros Hs. exfalso. rewrite (short_node_mode _ _ _ HI Hn Hs) in Hv. discriminate.
   - intros Hnm. cbn [Known04] in HK. destruct (N.eq_dec pos 0) as [->|Hp].
@@ -258,6 +303,11 @@ Proof.
       * rewrite upd_neq by exact Hne. destruct (w_nodes w s) as [sn|]; [|reflexivity]. rewrite HK. reflexivity.
     + left. cbn. destruct (n_content n) as [|it rest]; [reflexivity|]. destruct (N.to_nat pos) eqn:E; [lia|]. reflexivity.
 Qed.
+
+Theorem C04_remove_citem h pos w r w' :
+  Inv04 w -> Known04 T LATEST w (OpRemoveCItem h pos) = false ->
+  e_remove_character_content_item T h pos w = Val (r, w') -> Inv04 w'.
+Proof. intros HI HK H. eapply edit_shape_inv04; [exact HI|]. eapply remove_citem_shape; eauto. Qed.
 
 (* ---------- remove_character_data *)
 Theorem C04_remove_cdata h w r w' :
